@@ -355,4 +355,26 @@ example : Generated.PredictionSchemeNormalOctahedronCanonicalizedEncodingTransfo
     (Generated.ofOctaT (Octa.ofCenter 127)) (3, 77) (200, 13) = Octa.encCorr (Octa.ofCenter 127) (3, 77) (200, 13) :=
   source_octaEncode_is_model _ _ _ (by unfold OctaT.WF Octa.ofCenter; decide) (by unfold Octa.inGrid Octa.ofCenter; decide) (by unfold Octa.inGrid Octa.ofCenter; decide)
 
+open Generated in
+/-- the legacy (bitstream < 2.2) `PredictionSchemeNormalOctahedronDecodingTransform::ComputeOriginalValue(Point2, Point2)`
+    — with the `VectorD<uint32_t,2>` round trips of its additions — is `Octa.legacyDecOrig`, for EVERY prediction and
+    correction -/
+theorem source_octaLegacyDecode_is_model (t : OctaT) (pred corr : Int × Int) (hwf : t.WF) :
+    PredictionSchemeNormalOctahedronDecodingTransform.ComputeOriginalValue (ofOctaT t) pred corr =
+      Octa.legacyDecOrig t pred corr := legacyDecode_eq_model t pred corr hwf
+example : Generated.PredictionSchemeNormalOctahedronDecodingTransform.ComputeOriginalValue
+    (Generated.ofOctaT (Octa.ofCenter 127)) (200, 13) (7, 250) = Octa.legacyDecOrig (Octa.ofCenter 127) (200, 13) (7, 250) :=
+  source_octaLegacyDecode_is_model _ _ _ (by unfold OctaT.WF Octa.ofCenter; decide)
+
+open Generated in
+/-- the legacy `PredictionSchemeNormalOctahedronEncodingTransform::ComputeCorrection(Point2, Point2)` is
+    `Octa.legacyEncCorr` on the grid -/
+theorem source_octaLegacyEncode_is_model (t : OctaT) (orig pred : Int × Int) (hwf : t.WF)
+    (ho : Octa.inGrid t orig) (hg : Octa.inGrid t pred) :
+    PredictionSchemeNormalOctahedronEncodingTransform.ComputeCorrection (ofOctaT t) orig pred =
+      Octa.legacyEncCorr t orig pred := legacyEncode_eq_model t orig pred hwf ho hg
+example : Generated.PredictionSchemeNormalOctahedronEncodingTransform.ComputeCorrection
+    (Generated.ofOctaT (Octa.ofCenter 127)) (3, 77) (200, 13) = Octa.legacyEncCorr (Octa.ofCenter 127) (3, 77) (200, 13) :=
+  source_octaLegacyEncode_is_model _ _ _ (by unfold OctaT.WF Octa.ofCenter; decide) (by unfold Octa.inGrid Octa.ofCenter; decide) (by unfold Octa.inGrid Octa.ofCenter; decide)
+
 end Draco
